@@ -124,10 +124,12 @@ pub fn run_worker(
     shard: u32,
     shards: u32,
     findings: &Findings,
+    track_path: Option<PathBuf>,
 ) -> WorkerOutcome {
     let total_cases = property.cases(tier);
     let my_cases = total_cases / shards + u32::from(shard < total_cases % shards);
     let env = RefCell::new(Env::new(tier));
+    env.borrow_mut().track_path = track_path;
     let engine_error: RefCell<Option<String>> = RefCell::new(None);
     let last_failure: RefCell<Option<Failure>> = RefCell::new(None);
 
@@ -249,7 +251,30 @@ pub fn worker_main(
     report_path: &Path,
 ) -> i32 {
     let findings = Findings::load(&verif_root().join("KNOWN_FINDINGS.txt"));
-    let outcome = run_worker(property, tier, seed, shard, shards, &findings);
+    if property.hang_is_violation() {
+        // per-case watchdog: a case that runs for more than 60 s kills this worker; the parent then
+        // re-runs the noted case alone to confirm
+        crate::case::CASE_STARTED.store(0, std::sync::atomic::Ordering::Relaxed);
+        std::thread::spawn(|| loop {
+            std::thread::sleep(Duration::from_secs(1));
+            let started = crate::case::CASE_STARTED.load(std::sync::atomic::Ordering::Relaxed);
+            if started != 0 && crate::case::now_secs().saturating_sub(started) > 60 {
+                eprintln!("worker watchdog: a case exceeded 60 s");
+                std::process::abort();
+            }
+        });
+        // bound the address space: unbounded allocation must show up as a failure, not eat the machine
+        unsafe {
+            let limit = libc::rlimit { rlim_cur: 12 << 30, rlim_max: 12 << 30 };
+            libc::setrlimit(libc::RLIMIT_AS, &limit);
+        }
+    }
+    let track_path = if property.hang_is_violation() {
+        Some(report_path.with_extension("current.json"))
+    } else {
+        None
+    };
+    let outcome = run_worker(property, tier, seed, shard, shards, &findings, track_path);
     let report = json!({
         "stats": outcome.stats.to_json(),
         "violation": outcome.violation.as_ref().map(|failure| {
@@ -291,6 +316,47 @@ pub fn replay_file(property: &dyn Property, path: &Path, strict: bool) -> Result
 
 pub struct RunSummary {
     pub exit_code: i32,
+}
+
+enum Confirm {
+    Passed,
+    Failed(String),
+}
+
+fn confirm_alone(exe: &Path, id: &str, path: &Path) -> Confirm {
+    let child = Command::new(exe)
+        .arg(id)
+        .arg("--replay")
+        .arg(path)
+        .stdin(Stdio::null())
+        .stdout(Stdio::null())
+        .stderr(Stdio::null())
+        .spawn();
+    let Ok(mut child) = child else {
+        return Confirm::Passed;
+    };
+    let started = Instant::now();
+    loop {
+        match child.try_wait() {
+            Ok(Some(status)) => {
+                return match status.code() {
+                    Some(0) => Confirm::Passed,
+                    Some(1) => Confirm::Failed("violation reproduced".to_string()),
+                    Some(2) => Confirm::Passed,
+                    _ => Confirm::Failed(format!("process died with {status}")),
+                };
+            }
+            Ok(None) => {
+                if started.elapsed() > Duration::from_secs(120) {
+                    let _ = child.kill();
+                    let _ = child.wait();
+                    return Confirm::Failed("still running after 120 s (hang)".to_string());
+                }
+                std::thread::sleep(Duration::from_millis(50));
+            }
+            Err(_) => return Confirm::Passed,
+        }
+    }
 }
 
 fn write_replay(property_id: &str, replay: &Value) -> PathBuf {
@@ -412,7 +478,17 @@ pub fn parent_main(property: &dyn Property, tier: Tier, seed: u64) -> i32 {
                     .and_then(|bytes| serde_json::from_slice(&bytes).ok())
                     .unwrap_or(json!({}));
                 let path = write_replay(id, &replay);
-                violations.push((format!("worker {shard} {why} while running this case"), path));
+                // confirm: re-run that case alone, with a deadline
+                match confirm_alone(&exe, id, &path) {
+                    Confirm::Passed => engine_errors.push(format!(
+                        "worker {shard} {why}, but the noted case passes when re-run alone ({})",
+                        path.display()
+                    )),
+                    Confirm::Failed(how) => violations.push((
+                        format!("worker {shard} {why}; re-running the noted case alone: {how}"),
+                        path,
+                    )),
+                }
             } else {
                 engine_errors.push(format!("worker {shard} {why}"));
             }
